@@ -245,7 +245,11 @@ def run_kani_group(prop, grp, tier, obligations, undecided, failures, checker_cm
             if any(g.get("playback") for g in failures if g.get("group") is grp):
                 continue   # one executable counterexample per group is enough
             only_unwind = bool(f["harness"].get("unwind_obligation")) and set(f["new"]) <= {f["harness"]["unwind_obligation"]}
-            pb = vlib.kani_playback(ws, crate, f["harness"]["name"], features=features,
+            replayable = f["harness"].get("replayable", True)
+            # a stubbed harness cannot be played back natively anyway: when the group has a native pair that
+            # supplies the executable input, do not spend the full budget on Kani's concrete-playback run
+            pb_timeout = 240 if (grp.get("pair") and not replayable) else 600
+            pb = vlib.kani_playback(ws, crate, f["harness"]["name"], features=features, timeout=pb_timeout,
                                     solver=grp.get("solver"), modpath=grp.get("modpath"),
                                     run_native=f["harness"].get("replayable", True) and not only_unwind, c_lib=grp.get("c_lib"))
             if only_unwind:
